@@ -11,6 +11,34 @@ NOTE = ("Trusted base: the frozen effect / identity tables in kdverif (one reaso
         "the value-level behaviour of the property (see DESIGN.md section 4, 'N' lists).")
 
 CLAIMS = {
+    "C04": ("CFG dominance / must-pass, counter typestate and normal-form comparison on InterleavedSampler._training_loop",
+            "Decides on every path of _training_loop / _InterleavedBatchSampler.__iter__: set_epoch(<epoch counter>) precedes "
+            "each epoch's iteration (guarded by hasattr only); sample / in-epoch / in-update counters +1 exactly once per "
+            "main index before it is yielded, progress counters monotone, resets only at unit boundaries; the batch-closing "
+            "flag condition equals the update condition; the stopping test sits in the update block after increments and "
+            "interleaved passes and compares each budget with the counter of its own unit (samples with >=); the remainder "
+            "is dropped only at the epoch end after the stopping test; epoch length formula (len | (len // b) * b with "
+            "b = drop_last_batch_size if given else batch_size); the batch sampler emits exactly at flagged indices into "
+            "fresh lists and asserts an empty remainder. Stream values for concrete (N, B, budget) are not decided."),
+    "C05": ("monotone-flag dataflow, unit typing of interval tests, offset/index pairing and sibling summaries",
+            "Decides: the per-config decision flag starts False per config and can only be raised (no interval kind cancels "
+            "another); each interval kind is consulted under its own None-test, against the progress counter of its own "
+            "unit, in the form counter % n == 0 (or the crossing form for samples), the epoch verdict requiring the epoch "
+            "end; the config loop lies in the update block after the increments on every path, in config order; the "
+            "'sample count at last update' is refreshed only after it; every pass index is index_offsets[k] + i with k, i "
+            "from the same config step, every sampler element yielded once, flag = counter % (config.batch_size or "
+            "self.batch_size) == 0 or counter == len(sampler); _eval_loop and the training pass have equal summaries; "
+            "zero budget routes to _eval_loop which visits every config unconditionally; index_offsets is the prefix sum "
+            "matching the order of the concat dataset parts and of the collator list; the collator dispatches on the "
+            "(asserted unique) dataset index; _InterleavedConcatDataset.__getitem__ is the concat translation."),
+    "C06": ("backward-slice dependence sets, case-wise pruned-CFG normal forms compared between constructor and loop",
+            "Decides: epoch / update / sample counters and every local that copies a progress counter start from the "
+            "checkpoint value of their own unit; __init__ stores the checkpoint component-wise; each derived checkpoint "
+            "component depends on every geometry input its true value depends on (or the branch rejects the configuration "
+            "by raising); for each geometry case (no drop_last | drop_last | drop_last_batch_size) the samples-per-epoch "
+            "factor used to complete start_sample equals the epoch length _training_loop uses under the same assumptions "
+            "(constructor asserts propagated), and updates-per-epoch is its ceiling division by batch_size; the zero-budget "
+            "route asserts a zero checkpoint. Equality of two whole runs is not decided."),
     "C07": ("hook-propagation + RNG-source dataflow over the class hierarchy",
             "Decides, for all 81 classes of the KDTransform family and their ready-made pipelines at once: (1) set_rng "
             "reaches every owned member that holds a generator on every path (isinstance guards must admit every "
